@@ -7,9 +7,10 @@ shape (any length); finite character tables are closed by `decide` and lifted by
 -/
 import BytomModel.Lemmas.Bech32
 import BytomModel.Lemmas.ConvertBits
+import BytomModel.Lemmas.Address
 
 namespace BytomModel.Props.C29
-open BytomModel.Bech32 BytomModel.Lemmas.Bech32 BytomModel.Lemmas.ConvertBits
+open BytomModel.Bech32 BytomModel.Lemmas.Bech32 BytomModel.Lemmas.ConvertBits BytomModel.Lemmas.Address
 
 /-! ### the bech32 checksum -/
 
@@ -170,7 +171,8 @@ def kindLen : AddrKind → Nat
 theorem encodeSegWit_ok (hrp prog : Bytes) (hh : GoodHrp hrp) (hp : ∀ b ∈ prog, b < 256)
     (hl : prog.length = 20 ∨ prog.length = 32) :
     ∃ s cs, encodeSegWit hrp 0 prog = .ok s ∧ s = hrp ++ [49] ++ cs ∧ 49 ∉ cs ∧
-      decodeSegWit s = .ok (0, prog) := by
+      decodeSegWit s = .ok (0, prog) ∧
+      ∃ vals, cs = chars vals ∧ (∀ b ∈ vals, b < 32) ∧ verifyChecksum hrp vals = true := by
   obtain ⟨mid, hm1, hm2, hm3, hm4, hm5⟩ := convertBits_8_5_8 prog hp
   have hdata : ∀ b ∈ (0 :: mid), b < 32 := by
     intro b hb
@@ -189,7 +191,13 @@ theorem encodeSegWit_ok (hrp prog : Bytes) (hh : GoodHrp hrp) (hp : ∀ b ∈ pr
     simp only [hm5]
     have h1 : ¬ (0 > 16) := by decide
     rcases hl with hl | hl <;> simp [hl]
-  refine ⟨s, _, ?_, hs1.symm, h49, hdec⟩
+  have hall : ∀ b ∈ (0 :: mid) ++ checksum hrp (0 :: mid), b < 32 := by
+    intro b hb
+    rcases List.mem_append.mp hb with h | h
+    · exact hdata b h
+    · exact checksum_lt hrp _ b h
+  refine ⟨s, _, ?_, hs1.symm, h49, hdec, (0 :: mid) ++ checksum hrp (0 :: mid), rfl, hall,
+    checksum_verifies hrp (0 :: mid) (fun c hc => by have := hh.2.2 c hc; omega) hdata⟩
   unfold encodeSegWit
   rw [hm1]
   simp only
@@ -207,7 +215,7 @@ theorem address_roundtrip (kind : AddrKind) (hrp prog : Bytes) (hh : GoodHrp hrp
       decodeAddress a.encodeAddress hrp = .ok a ∧ a.program = prog ∧ a.kind = kind := by
   have hlow := goodHrp_lower hh
   have hl' : prog.length = 20 ∨ prog.length = 32 := by cases kind <;> simp [kindLen] at hl <;> omega
-  obtain ⟨s, cs, hs, hshape, h49, hdec⟩ := encodeSegWit_ok hrp prog hh hp hl'
+  obtain ⟨s, cs, hs, hshape, h49, hdec, _⟩ := encodeSegWit_ok hrp prog hh hp hl'
   refine ⟨⟨kind, hrp, prog⟩, ?_, ?_, ?_, rfl, rfl⟩
   · cases kind <;> simp [newAddress, kindLen] at hl ⊢ <;> simp [hl, hlow]
   · simp only [Address.encodeAddress, hs]
@@ -241,7 +249,7 @@ theorem address_wrong_net_rejected (kind : AddrKind) (hrp hrp' prog : Bytes) (hh
     decodeAddress a.encodeAddress hrp' = .error .unknownType := by
   have hlow := goodHrp_lower hh
   have hl' : prog.length = 20 ∨ prog.length = 32 := by cases kind <;> simp [kindLen] at hl <;> omega
-  obtain ⟨s, cs, hs, hshape, h49, hdec⟩ := encodeSegWit_ok hrp prog hh hp hl'
+  obtain ⟨s, cs, hs, hshape, h49, hdec, _⟩ := encodeSegWit_ok hrp prog hh hp hl'
   have hae : a = ⟨kind, hrp, prog⟩ := by
     cases kind <;> simp [newAddress, kindLen] at hl ha <;> simp [hl, hlow] at ha <;> exact ha.symm
   subst hae
@@ -263,10 +271,107 @@ theorem address_wrong_net_rejected (kind : AddrKind) (hrp hrp' prog : Bytes) (hh
     exact hne this.symm
   · rfl
 
+/-- removing any one character of the prefix leaves a lower-case letter (so that a case change of
+    one character makes the string mixed-case) -/
+def TwoLetters (hrp : Bytes) : Prop :=
+  ∀ h1 x h2, hrp = h1 ++ x :: h2 → ∃ ch ∈ h1 ++ h2, 97 ≤ ch ∧ ch ≤ 122
+
+theorem twoLetters_of_pair (a b : Nat) (ha : 97 ≤ a ∧ a ≤ 122) (hb : 97 ≤ b ∧ b ≤ 122) : TwoLetters [a, b] := by
+  intro h1 x h2 h
+  match h1, h with
+  | [], h => simp at h; exact ⟨b, by simp [← h.2], hb⟩
+  | [y], h => simp at h; exact ⟨a, by simp [h.1], ha⟩
+  | y :: z :: r, h => simp at h
+
+theorem twoLetters_nets : TwoLetters hrpMainnet ∧ TwoLetters hrpTestnet ∧ TwoLetters hrpSolonet :=
+  ⟨twoLetters_of_pair 98 110 (by decide) (by decide), twoLetters_of_pair 116 110 (by decide) (by decide),
+   twoLetters_of_pair 115 110 (by decide) (by decide)⟩
+
+theorem set_decomp (l : List Nat) (i c : Nat) (hi : i < l.length) :
+    l = l.take i ++ l[i] :: l.drop (i + 1) ∧ l.set i c = l.take i ++ c :: l.drop (i + 1) := by
+  constructor
+  · simp
+  · rw [List.set_eq_take_append_cons_drop, if_pos hi]
+
+/-- **Decoding rejects any address with one character changed.** For every network prefix, every
+    20/32-byte program, every position of the encoded address and every other byte value put
+    there, `DecodeAddress` returns an error. -/
+theorem address_substitution_rejected (kind : AddrKind) (hrp prog : Bytes) (hh : GoodHrp hrp)
+    (h2 : TwoLetters hrp) (hp : ∀ b ∈ prog, b < 256) (hl : prog.length = kindLen kind)
+    (a : Address) (ha : newAddress kind hrp prog = .ok a) (i c : Nat)
+    (hi : i < a.encodeAddress.length) (hc : c ≠ a.encodeAddress[i]) :
+    ∃ e, decodeAddress (a.encodeAddress.set i c) hrp = .error e := by
+  have hlow := goodHrp_lower hh
+  have hl' : prog.length = 20 ∨ prog.length = 32 := by cases kind <;> simp [kindLen] at hl <;> omega
+  obtain ⟨s, cs, hs, hshape, h49, _, vals, hcs, hvals, hver⟩ := encodeSegWit_ok hrp prog hh hp hl'
+  have hae : a = ⟨kind, hrp, prog⟩ := by
+    cases kind <;> simp [newAddress, kindLen] at hl ha <;> simp [hl, hlow] at ha <;> exact ha.symm
+  subst hae
+  have henc : (⟨kind, hrp, prog⟩ : Address).encodeAddress = hrp ++ 49 :: cs := by
+    simp only [Address.encodeAddress, hs, hshape]; simp
+  simp only [henc] at hi hc ⊢
+  have hlowc : ∀ ch ∈ hrp, toLower ch = ch := by
+    intro ch hch; unfold toLower; rw [if_neg (hh.2.2 ch hch).2.2]
+  rcases Nat.lt_trichotomy i hrp.length with hlt | heq | hgt
+  · -- in the human-readable part
+    rw [List.set_append_left _ _ hlt]
+    obtain ⟨d1, d2⟩ := set_decomp hrp i c hlt
+    rw [d2]
+    have hx : c ≠ hrp[i] := by
+      rw [List.getElem_append_left hlt] at hc; exact hc
+    obtain ⟨ch, hch, hl1⟩ := h2 _ _ _ d1
+    have := subst_hrp (hrp.take i) (hrp.drop (i + 1)) cs hrp[i] c hx (by rw [← d1]; exact hlowc)
+      ⟨ch, hch, hl1⟩ h49
+    rw [← d1] at this
+    exact this
+  · -- the separator
+    subst heq
+    rw [List.set_append_right _ _ (Nat.le_refl _)]
+    simp only [Nat.sub_self, List.set_cons_zero]
+    have hx : c ≠ 49 := by
+      rw [List.getElem_append_right (Nat.le_refl _)] at hc
+      simpa using hc
+    exact ⟨_, subst_separator hrp cs c hx h49⟩
+  · -- in the data part
+    rw [List.set_append_right _ _ (Nat.le_of_lt hgt)]
+    obtain ⟨k, hk⟩ : ∃ k, i - hrp.length = k + 1 := ⟨i - hrp.length - 1, by omega⟩
+    rw [hk, List.set_cons_succ]
+    have hkl : k < cs.length := by
+      simp only [List.length_append, List.length_cons] at hi; omega
+    have hkv : k < vals.length := by rw [hcs] at hkl; simpa [chars] using hkl
+    obtain ⟨d1, d2⟩ := set_decomp vals k 0 hkv
+    have hcsd : cs = chars (vals.take k) ++ charset.getD vals[k] 0 :: chars (vals.drop (k + 1)) := by
+      rw [hcs]
+      have := congrArg chars d1
+      simp only [chars, List.map_append, List.map_cons] at this ⊢
+      exact this
+    have hset : cs.set k c = chars (vals.take k) ++ c :: chars (vals.drop (k + 1)) := by
+      rw [hcsd]
+      have hlen : (chars (vals.take k)).length = k := by simp [chars]; omega
+      rw [List.set_append_right _ _ (by omega), hlen, Nat.sub_self, List.set_cons_zero]
+    rw [hset]
+    have hx : c ≠ charset.getD vals[k] 0 := by
+      have hge : hrp.length ≤ i := Nat.le_of_lt hgt
+      rw [List.getElem_append_right hge] at hc
+      have : (49 :: cs)[i - hrp.length]'(by simp only [List.length_cons]; omega) = cs[k] := by
+        simp only [hk, List.getElem_cons_succ]
+      rw [this] at hc
+      have hck : cs[k] = charset.getD vals[k] 0 := by
+        simp only [hcs, chars, List.getElem_map]
+      rw [hck] at hc; exact hc
+    obtain ⟨ch, hch, hl1⟩ : ∃ ch ∈ hrp, 97 ≤ ch ∧ ch ≤ 122 := by
+      match hrp, hh.1, h2 with
+      | x :: r, _, h2 =>
+        obtain ⟨ch, hch, h⟩ := h2 [] x r rfl
+        exact ⟨ch, by simp at hch; simp [hch], h⟩
+    exact subst_data hrp (vals.take k) (vals.drop (k + 1)) vals[k] c hlowc ⟨ch, hch, hl1⟩
+      (by rw [← d1]; exact hvals) (by rw [← d1]; exact hver) hx
+
 /-! ### satisfiability of the hypotheses; tests on literals -/
 
 example : ∃ s, encode hrpMainnet [0, 1, 2, 31] = .ok s ∧ decode s = .ok (hrpMainnet, [0, 1, 2, 31]) :=
   bech32_decode_encode hrpMainnet [0, 1, 2, 31] (by decide) (by decide) (by decide) (by decide)
+example : GoodHrp hrpMainnet ∧ TwoLetters hrpMainnet := ⟨goodHrp_nets.1, twoLetters_nets.1⟩
 example : verifyChecksum hrpMainnet ([3, 7] ++ checksum hrpMainnet [3, 7]) = true := by decide
 example : verifyChecksum hrpMainnet ([3, 8] ++ checksum hrpMainnet [3, 7]) = false := by decide
 
